@@ -76,7 +76,10 @@ def step (d : DSt) (n : Nat) (ln : Line) : DSt × List String :=
       (if cutsRun then ["COV w.tmp.write-ends-inside-run-in-range"] else [])
     let iL := (o.getD 1 "L=-") != "L=-"; let iK := (o.getD 2 "K=-") != "K=-"
     let kTok := o.getD 2 "K=-"
-    let h := { d.hist with savedAfterRead := d.hist.savedAfterRead ∨ (d.hist.readSeen ∧ kTok != d.implK) }
+    -- a write that extends the file changes the entry's FileSize attribute (FileHandle.Write), which the handle's cached
+    -- reader does not see either (same root cause as chunks added behind the cached view)
+    let grows := decide (0 < data.length ∧ d.file.length < off + data.length)
+    let h := { d.hist with savedAfterRead := d.hist.savedAfterRead ∨ (d.hist.readSeen ∧ (kTok != d.implK ∨ grows)) }
     ({ d with m := st, file := pwrite d.file off data, hist := h, implDirty := iL, implChunks := iK, implK := kTok,
               runIn := if newRun.isSome then newRun else d.runIn }, diff n ln (stateToks st) ++ cov)
   | "t" =>
